@@ -371,6 +371,32 @@ def run(pid, tier):
     resd = e2.run_with_raw(prog, hd)
     docs.replay_md(rep, NAT, hd, resd)
     e2.record(rep, hd, resd)
+    if tier == "thorough":
+        # second engine on the fence classifier: Kani/CBMC on the compiled function (≈ 3 min per harness)
+        for name in ("c06::c06_fence_opener_needs_three_backticks", "c06::c06_fence_pieces_reassemble", "c06::c06_fence_three_backticks_open"):
+            k = kani.run_harness(name, timeout_s=1200)
+            st = {"pass": "holds", "fail": "violated", "undecided": "undecided"}[k["status"]]
+            if k["status"] == "fail" and not k.get("unwinding_failure"):
+                bs = kani.decode_bytes_len(k["playback"][0], 5) if k.get("playback") else None
+                confirmed = False
+                if bs is not None:
+                    try:
+                        text = bytes(bs).decode("utf-8")
+                        nk, nv = NAT.call("extract_code_block_start", [text])
+                        bad, why, sig = h_fence(5).judge([text], nk, nv)
+                        if bad:
+                            confirmed = True
+                            rep.violation(sig, why + " (Kani counterexample)", {"kind": "eval", "fn": "extract_code_block_start", "args": [text], "native": [nk, nv], "harness": name})
+                    except UnicodeDecodeError:
+                        pass
+                if not confirmed:
+                    rep.mismatches.append("Kani counterexample for %s did not reproduce natively: %s" % (name, bs))
+            elif k["status"] != "pass":
+                rep.undecided.append("%s: %s" % (name, k.get("why", "unwinding bound too small")))
+                st = "undecided"
+            rep.subclaim(name=name, engine="E1 (Kani/CBMC)", bound="valid UTF-8 lines <= 5 bytes, unwind 8, unwinding assertions on",
+                         what="fence classifier claim on the compiled function", result=st, checks=k.get("checks"), covers=k.get("covers"),
+                         cbmc_s=k.get("cbmc_s"), wall_s=k["wall_s"])
     NAT.close()
     tot_paths = sum(s.get("paths", 0) for s in rep.subclaims)
     rep.coverage.update({
